@@ -2,6 +2,7 @@ import QcelVerif.Model.Kabsch
 import QcelVerif.Model.KabschUnique
 import QcelVerif.Model.B787
 import QcelVerif.Model.UnoOrderings
+import QcelVerif.Model.RandRot
 import QcelVerif.Lib.Proto
 /-!
 Line-protocol driver for the C12 models (all numbers are exact rationals `p/q`).
@@ -24,6 +25,12 @@ Line-protocol driver for the C12 models (all numbers are exact rationals `p/q`).
     `g = collinearityMargin R = max_{i<j} |(r_i − r̄) × (r_j − r̄)|²` (the quantity of `Props/C12Unique.lean`,
     `maxCross2_pos_iff`, `recovery_rotation_close`), a pair `i,j` attaining it (re-verified by the harness), the
     square norms `|r_i − r̄|²`, `|r_j − r̄|²` of that pair and `lmax2 = max_k |r_k − r̄|²`
+* `R|deflection|u1|u2|u3`   the model of `util.random_rotation_matrix(deflection, randnums=(u1,u2,u3))`
+    (`Model/RandRot.lean`, `randomRotationMatrixQ`: the field-generic model executed at ℚ with rational
+    approximations of sin/cos/sqrt/2π accurate to < 1e-30): the nine entries of `M` (row-major), and the three
+    normalisation defects of `Props/C12RandRot.lean`'s hypotheses at these approximations — `nt = sin²θ+cos²θ−1`,
+    `np = sin²φ+cos²φ−1`, `nv = |V|²−2` — plus `orth = max |M Mᵀ − I|` entry and `det − 1` computed exactly from the
+    model's `M`.  `err domain` when `z = u3·2·deflection` is outside `[0, 2]` (numpy would produce nan).
 -/
 open QcelVerif QcelVerif.Proto QcelVerif.Kabsch
 
@@ -184,6 +191,28 @@ def stepN (f : List String) : String :=
     | none => "bad-op"
   | _ => "bad-op"
 
+def stepR (f : List String) : String :=
+  match f with
+  | [d, a, b, c] =>
+    match parseRat? d, parseRat? a, parseRat? b, parseRat? c with
+    | some d, some u1, some u2, some u3 =>
+      let z := u3 * 2 * d
+      if z < 0 || 2 < z then "err domain" else
+      let M := RandRot.randomRotationMatrixQ d u1 u2 u3
+      let theta := (u1 - 1 / 2) * d * RandRot.twoPiQ
+      let phi := u2 * RandRot.twoPiQ
+      let nt := RandRot.sinQ theta ^ 2 + RandRot.cosQ theta ^ 2 - 1
+      let np := RandRot.sinQ phi ^ 2 + RandRot.cosQ phi ^ 2 - 1
+      let V := RandRot.poleVector (RandRot.sinQ phi) (RandRot.cosQ phi) (RandRot.sqrtQ z) (RandRot.sqrtQ (2 - z))
+      let nv := V.nrm2 - 2
+      let E := M.mul M.transpose
+      let I : M3 Rat := M3.one
+      let orth := [E.a00 - I.a00, E.a01 - I.a01, E.a02 - I.a02, E.a10 - I.a10, E.a11 - I.a11, E.a12 - I.a12,
+        E.a20 - I.a20, E.a21 - I.a21, E.a22 - I.a22].foldl (fun m x => max m |x|) 0
+      s!"ok M={srs [M.a00, M.a01, M.a02, M.a10, M.a11, M.a12, M.a20, M.a21, M.a22]} nt={sr nt} np={sr np} nv={sr nv} orth={sr orth} det1={sr (M.det - 1)}"
+    | _, _, _, _ => "bad-op"
+  | _ => "bad-op"
+
 def stepC12 (line : String) : String :=
   match splitOnChar line '|' with
   | "K" :: f => stepK f
@@ -193,6 +222,7 @@ def stepC12 (line : String) : String :=
   | "O" :: f => stepO f
   | "M" :: f => stepM f
   | "N" :: f => stepN f
+  | "R" :: f => stepR f
   | _ => "bad-op"
 
 def main : IO Unit := mainLoop stepC12
